@@ -1,6 +1,7 @@
 import Proofs.C18Frame
 import Proofs.C18Heap
 import Proofs.C18Snappy
+import Proofs.C18SnappyStream
 import Proofs.C18Lz4Block
 import Model.CompressRecv
 import Model.CompressSend
@@ -461,6 +462,31 @@ theorem C18_snappy_corrupt :
     (snappyDecode [5, 0x00, 0x41, 0x01, 0x02]).toOption = none ∧
     (snappyDecode [3, 0x00, 0x41, 0x01, 0x01]).toOption = none ∧
     (snappyDecode [9, 0xf4, 0x01]).toOption = none := by decide
+
+/-- **The snappy decoder inverts EVERY encoder of the format.** For every list of elements that is
+    well-formed (literals of 1..65536 bytes; copies of 1..64 bytes from 1..65535 bytes back, never from
+    before the start of the output) — whatever matcher chose them —: the block `uvarint(length) ‖`
+    the elements' bytes (shortest literal header, the 1-byte-offset copy where it applies: exactly what
+    golang/snappy's emitLiteral / emitCopy write) decodes to the LZ77 meaning of the elements. So an
+    encoder is transparent as soon as the elements it emits MEAN its input (second part) — the decoder
+    side of the round-trip hypothesis holds for all encoders at once. -/
+theorem C18_snappy_decodes_any_stream (es : List SnapEl) (hwf : snapWF 0 es)
+    (hlen : (snapInterp es #[]).size ≤ 0xffffffff) :
+    snappyDecode (putUvarint 4 (snapInterp es #[]).size ++ snapSer es) = .ok (snapInterp es #[]).toList ∧
+    ∀ x : Bytes, (snapInterp es #[]).toList = x →
+      snappyDecode (putUvarint 4 x.length ++ snapSer es) = .ok x := by
+  have h := snappyDecode_stream es hwf hlen
+  refine ⟨h, fun x hx => ?_⟩
+  have hl : x.length = (snapInterp es #[]).size := by rw [← hx]; simp
+  rw [hl, h, hx]
+
+/-- non-vacuity: a literal, an overlapping 1-byte-offset copy (a run), a 2-byte-offset copy -/
+example :
+    let es : List SnapEl := [.lit [0x41, 0x42], .copy 1 4, .copy 5 3]
+    snapWF 0 es ∧ snapSer es = [0x04, 0x41, 0x42, 0x01, 0x01, 0x0a, 0x05, 0x00] ∧
+    (snapInterp es #[]).toList = [0x41, 0x42, 0x42, 0x42, 0x42, 0x42, 0x42, 0x42, 0x42] ∧
+    (snappyDecode ([9] ++ snapSer es)).toOption = some [0x41, 0x42, 0x42, 0x42, 0x42, 0x42, 0x42, 0x42, 0x42] := by
+  refine ⟨by simp [snapWF, SnapEl.wf, SnapEl.size], by decide, by decide, by decide⟩
 
 /-- non-vacuity of the decoder: a literal, then an OVERLAPPING copy (offset 1, length 4: a run), then a
     2-byte-offset copy of the first four bytes -/
